@@ -189,12 +189,13 @@ static void exec_entry(int e, const Shape& sh, MODULE* mod, Run& R) {
 // table-based / stand-alone kernels on exactly-sized, 8-byte-aligned buffers
 enum { K_REIM_FFT = 0, K_REIM_IFFT, K_CPLX_FFT, K_CPLX_IFFT, K_FROM_ZNX64, K_TO_ZNX64, K_TO_TNX, K_CPLX_FROM_ZNX32, K_CPLX_FROM_TNX32, K_CPLX_TO_TNX32, K_REIM_MUL,
        K_REIM_ADDMUL, K_CPLX_MUL, K_CPLX_ADDMUL, K_REIM4_MUL, K_REIM4_ADDMUL, K_Q120_NTT, K_Q120_INTT, K_Q120_BAA, K_Q120_BBB, K_Q120_BBC, K_Q120_FROM64, K_Q120_TO128,
-       K_ROT_INPLACE, K_AUT_INPLACE, K_SIMPLE_PAIR_TO_ZNX64, K_SIMPLE_PAIR_TO_TNX32, K_SIMPLE_PAIR_FROM_ZNX64, K_COUNT };
+       K_ROT_INPLACE, K_AUT_INPLACE, K_SIMPLE_PAIR_TO_ZNX64, K_SIMPLE_PAIR_TO_TNX32, K_SIMPLE_PAIR_FROM_ZNX64, K_REIM4_CONV, K_REIM4_DOT, K_COUNT };
 static const char* KNAMES[K_COUNT] = {"reim_fft", "reim_ifft", "cplx_fft", "cplx_ifft", "reim_from_znx64", "reim_to_znx64", "reim_to_tnx", "cplx_from_znx32", "cplx_from_tnx32",
                                       "cplx_to_tnx32", "reim_fftvec_mul", "reim_fftvec_addmul", "cplx_fftvec_mul", "cplx_fftvec_addmul", "reim4_fftvec_mul", "reim4_fftvec_addmul",
                                       "q120_ntt_bb_avx2", "q120_intt_bb_avx2", "q120_vec_mat1col_product_baa", "q120_vec_mat1col_product_bbb", "q120_vec_mat1col_product_bbc",
                                       "q120_b_from_znx64_simple", "q120_b_to_znx128_simple", "znx_rotate_inplace_i64", "znx_automorphism_inplace_i64",
-                                      "reim_to_znx64_simple(m1 then m2)", "cplx_to_tnx32_simple(m1 then m2)", "reim_from_znx64_simple(m1 then m2)"};
+                                      "reim_to_znx64_simple(m1 then m2)", "cplx_to_tnx32_simple(m1 then m2)", "reim_from_znx64_simple(m1 then m2)",
+                                      "reim4_convolution(1coeff/2coeff/windowed)", "reim4_vec_mat1col/mat2cols_product"};
 
 static void exec_kernel(int kf, uint64_t m, unsigned mask, uint64_t ell, int avx, Run& R) {
   spq::MaskGuard g(mask);
@@ -363,6 +364,31 @@ static void exec_kernel(int kf, uint64_t m, unsigned mask, uint64_t ell, int avx
       }
       break;
     }
+    case K_REIM4_CONV: {
+      // table-free reim4 kernels on exactly-sized arrays: every destination element is written whatever it held before, also the
+      // coefficients outside the support of the product, and nothing beyond sizea / sizeb elements is read
+      const uint64_t sizea = ell % 7, sizeb = (ell / 7) % 6, off = (uint64_t)(m % 9), dsz = 1 + (uint64_t)(m % 5), which = (uint64_t)avx + 2 * (ell & 1);
+      double *a = (double*)R.in(sizea * 64), *b = (double*)R.in(sizeb * 64);
+      dbl(a, sizea * 8); dbl(b, sizeb * 8);
+      double* r = (double*)R.out((which % 3 == 2 ? dsz : which % 3 == 1 ? 2 : 1) * 64);
+      R.freeze();
+      if (which % 3 == 0) { reim4_convolution_1coeff_ref(off, r, a, sizea, b, sizeb); R.result(r, 64); }
+      else if (which % 3 == 1) { reim4_convolution_2coeff_ref(off, r, a, sizea, b, sizeb); R.result(r, 128); }
+      else { reim4_convolution_ref(r, dsz, off, a, sizea, b, sizeb); R.result(r, dsz * 64); }
+      break;
+    }
+    case K_REIM4_DOT: {
+      const uint64_t rows = ell;  // 0..40
+      double *u = (double*)R.in(rows * 64), *v1 = (double*)R.in(rows * 64), *v2 = (double*)R.in(rows * 128);
+      dbl(u, rows * 8); dbl(v1, rows * 8); dbl(v2, rows * 16);
+      double *r1 = (double*)R.out(64), *r2 = (double*)R.out(128);
+      R.freeze();
+      (avx ? reim4_vec_mat1col_product_avx2 : reim4_vec_mat1col_product_ref)(rows, r1, u, v1);
+      (avx ? reim4_vec_mat2cols_product_avx2 : reim4_vec_mat2cols_product_ref)(rows, r2, u, v2);
+      R.result(r1, 64);
+      R.result(r2, 128);
+      break;
+    }
     default: {
       int64_t* x = (int64_t*)R.out(m * 8);
       fill64(x, m, 62, R.data);
@@ -468,6 +494,7 @@ std::vector<Sub> vh_subs() {
       const int kf = (int)v[1];
       if ((kf == K_REIM4_MUL || kf == K_REIM4_ADDMUL) && logm < 2) logm = 2;
       if (kf >= K_SIMPLE_PAIR_TO_ZNX64 && logm > 14) logm = 14;
+      if (kf >= K_REIM4_CONV && logm > 10) logm = 10;  // m only seeds the window parameters of the table-free reim4 kernels
       const uint64_t m = 1ull << logm;
       unsigned mask = v[2] ? spq::GENERIC : spq::FULL;
       if (kf >= K_Q120_NTT) mask = spq::FULL;  // q120 kernels and the *_simple caches: default dispatch only
